@@ -1,5 +1,8 @@
 // search.go: failing-input search legs of hx_c12 (active only with -search).
 //
+// The legs that run in the NORMAL tiers (element types, machine-word arguments, constructor forms) are in legs3.go; they
+// share this file's engines (deng, ueng) and oracle.
+//
 // The normal tiers keep deques below ~100 elements and capacities below 2048. The legs:
 //
 //	deque-scale   NewDeque(C, m) for C = 2^16, 2^17, 2^18 and m = default, C/4, C/2, C, 2C, and a zero-value deque grown
@@ -103,6 +106,8 @@ type deng struct {
 	maxLen    int
 	maxCap    int
 	dumps     int
+	vbox          // legs3.go: what an element stamp IS (nil vals = the int itself)
+	wordBits  int // legs3.go: int width the minimum-capacity rule is computed for (0 = the search legs' 64-bit rule)
 }
 
 func (e *deng) fail(key, format string, a ...interface{}) {
@@ -182,7 +187,7 @@ func (e *deng) call(op string, f func()) bool {
 func (e *deng) pb() {
 	e.next++
 	v := e.next
-	if e.call("pb", func() { e.d.PushBack(v) }) {
+	if e.call("pb", func() { e.d.PushBack(e.valOf(v)) }) {
 		e.ref.pushBack(v)
 		e.allocated = true
 		e.rules("pb")
@@ -192,7 +197,7 @@ func (e *deng) pb() {
 func (e *deng) pf() {
 	e.next++
 	v := e.next
-	if e.call("pf", func() { e.d.PushFront(v) }) {
+	if e.call("pf", func() { e.d.PushFront(e.valOf(v)) }) {
 		e.ref.pushFront(v)
 		e.allocated = true
 		e.rules("pf")
@@ -230,8 +235,8 @@ func (e *deng) pop(front bool) {
 	} else {
 		want = e.ref.popBack()
 	}
-	if got != interface{}(want) {
-		e.fail("deque:value:"+op, "%s answered %v, a plain list answers %d (%d elements left)", op, got, want, e.ref.len())
+	if !e.valIs(got, want) {
+		e.fail("deque:value:"+op, "%s answered %s, a plain list answers %s (%d elements left)", op, showVal(got), e.showStamp(want), e.ref.len())
 		return
 	}
 	e.rules(op)
@@ -261,8 +266,8 @@ func (e *deng) at(i int) {
 		return
 	}
 	var got interface{}
-	if e.call("at", func() { got = e.d.At(i) }) && got != interface{}(e.ref.at(i)) {
-		e.fail("deque:value:at", "At(%d) answered %v, a plain list of %d answers %d", i, got, n, e.ref.at(i))
+	if e.call("at", func() { got = e.d.At(i) }) && !e.valIs(got, e.ref.at(i)) {
+		e.fail("deque:value:at", "At(%d) answered %s, a plain list of %d answers %s", i, showVal(got), n, e.showStamp(e.ref.at(i)))
 	}
 }
 
@@ -271,10 +276,10 @@ func (e *deng) set(i int) {
 	e.next++
 	v := e.next
 	if i < 0 || i >= n {
-		e.refused("set", func() { e.d.Set(i, v) })
+		e.refused("set", func() { e.d.Set(i, e.valOf(v)) })
 		return
 	}
-	if e.call("set", func() { e.d.Set(i, v) }) {
+	if e.call("set", func() { e.d.Set(i, e.valOf(v)) }) {
 		e.ref.set(i, v)
 		e.rules("set")
 	}
@@ -289,10 +294,10 @@ func (e *deng) ends() {
 	}
 	var f, b interface{}
 	if e.call("front", func() { f = e.d.Front(); b = e.d.Back() }) {
-		if f != interface{}(e.ref.at(0)) {
-			e.fail("deque:value:front", "Front() answered %v, a plain list of %d answers %d", f, n, e.ref.at(0))
-		} else if b != interface{}(e.ref.at(n-1)) {
-			e.fail("deque:value:back", "Back() answered %v, a plain list of %d answers %d", b, n, e.ref.at(n-1))
+		if !e.valIs(f, e.ref.at(0)) {
+			e.fail("deque:value:front", "Front() answered %s, a plain list of %d answers %s", showVal(f), n, e.showStamp(e.ref.at(0)))
+		} else if !e.valIs(b, e.ref.at(n-1)) {
+			e.fail("deque:value:back", "Back() answered %s, a plain list of %d answers %s", showVal(b), n, e.showStamp(e.ref.at(n-1)))
 		}
 	}
 }
@@ -314,7 +319,9 @@ func (e *deng) clear() {
 func (e *deng) smc(exp uint) {
 	if e.call("smc", func() { e.d.SetMinCapacity(exp) }) {
 		e.min = defaultMin
-		if exp < 63 && 1<<exp > defaultMin {
+		if e.wordBits != 0 {
+			e.min = wantMin(exp, e.wordBits)
+		} else if exp < 63 && 1<<exp > defaultMin {
 			e.min = 1 << exp
 		}
 		e.rules("smc")
@@ -335,15 +342,15 @@ func (e *deng) dump(all bool) {
 	}
 	e.call("dump", func() {
 		for i := 0; i < n; i += step {
-			if got := e.d.At(i); got != interface{}(e.ref.at(i)) {
-				e.fail("deque:contents", "the deque holds %v at index %d of %d, a plain list holds %d", got, i, n, e.ref.at(i))
+			if got := e.d.At(i); !e.valIs(got, e.ref.at(i)) {
+				e.fail("deque:contents", "the deque holds %s at index %d of %d, a plain list holds %s", showVal(got), i, n, e.showStamp(e.ref.at(i)))
 				return
 			}
 		}
 		for _, i := range []int{1<<16 - 1, 1 << 16, 1<<16 + 1, 1<<17 - 1, 1 << 17, 1<<17 + 1, n - 2, n - 1} {
 			if i >= 0 && i < n {
-				if got := e.d.At(i); got != interface{}(e.ref.at(i)) {
-					e.fail("deque:contents", "the deque holds %v at index %d of %d, a plain list holds %d", got, i, n, e.ref.at(i))
+				if got := e.d.At(i); !e.valIs(got, e.ref.at(i)) {
+					e.fail("deque:contents", "the deque holds %s at index %d of %d, a plain list holds %s", showVal(got), i, n, e.showStamp(e.ref.at(i)))
 					return
 				}
 			}
@@ -359,7 +366,7 @@ func (e *deng) report(r *hxlib.Run, c SCase) bool {
 	}
 	c.FailAt = e.n
 	f := e.fails[0]
-	r.Fail(f.key, fmt.Sprintf("search leg %s/%s (n=%d min=%d seed=%d): %s", c.Leg, c.Variant, c.N, c.Min, c.Seed, f.what), c)
+	r.Fail(f.key, fmt.Sprintf("leg %s/%s (n=%d min=%d seed=%d): %s", c.Leg, c.Variant, c.N, c.Min, c.Seed, f.what), c)
 	return true
 }
 
@@ -539,6 +546,7 @@ type ueng struct {
 	fails []sfail
 	dead  bool
 	maxN  int
+	vbox  // legs3.go
 }
 
 func (e *ueng) fail(key, format string, a ...interface{}) {
@@ -575,7 +583,7 @@ func (e *ueng) lenOK(op string) {
 func (e *ueng) push() {
 	e.next++
 	v := e.next
-	if e.call("upush", func() { e.q.Push(v) }) {
+	if e.call("upush", func() { e.q.Push(e.valOf(v)) }) {
 		e.ref.pushBack(v)
 		e.lenOK("upush")
 	}
@@ -604,8 +612,8 @@ func (e *ueng) take(op string) {
 		e.fail("uq:"+op+":lost", "%s says empty, %d elements are queued (next %d)", op, e.ref.len(), want)
 		return
 	}
-	if got != interface{}(want) {
-		e.fail("uq:"+op+":order", "%s answered %v, the oldest queued element is %d (%d queued)", op, got, want, e.ref.len())
+	if !e.valIs(got, want) {
+		e.fail("uq:"+op+":order", "%s answered %s, the oldest queued element is %s (%d queued)", op, showVal(got), e.showStamp(want), e.ref.len())
 		return
 	}
 	if op == "upop" {
@@ -627,7 +635,7 @@ func (e *ueng) report(r *hxlib.Run, c SCase) bool {
 	}
 	c.FailAt = e.n
 	f := e.fails[0]
-	r.Fail(f.key, fmt.Sprintf("search leg %s/%s (n=%d seed=%d): %s", c.Leg, c.Variant, c.N, c.Seed, f.what), c)
+	r.Fail(f.key, fmt.Sprintf("leg %s/%s (n=%d seed=%d): %s", c.Leg, c.Variant, c.N, c.Seed, f.what), c)
 	return true
 }
 
@@ -959,6 +967,10 @@ func cqSearchCase(r *hxlib.Run, c SCase) bool {
 // ---- entry points ---------------------------------------------------------------------------------------------------
 
 func replaySearch(r *hxlib.Run, c SCase) {
+	if isLeg3(c.Leg) { // legs3.go (normal tiers)
+		legCase(r, c)
+		return
+	}
 	switch c.Leg {
 	case "deque-scale":
 		r.Case()
